@@ -56,7 +56,7 @@ class StilFile:
                 capture = dict((k, v.replace('\n', '').replace('N', '-')) for k, v in call.parameters.items())
 
     def _maps(self, c):
-        interface = list(c.io_nodes) + [n for n in c.nodes if 'DFF' in n.kind]
+        interface = c.s_nodes
         intf_pos = dict((n.name, i) for i, n in enumerate(interface))
         pi_map = [intf_pos[n] for n in self.signal_groups['_pi']]
         po_map = [intf_pos[n] for n in self.signal_groups['_po']]
@@ -82,8 +82,8 @@ class StilFile:
                     scan_out_inversion.append(inversion)
             scan_maps[chain[0]] = scan_map
             scan_maps[chain[-1]] = scan_map
-            scan_inversions[chain[0]] = logic.mvarray(scan_in_inversion)[0]
-            scan_inversions[chain[-1]] = logic.mvarray(scan_out_inversion)[0]
+            scan_inversions[chain[0]] = logic.mvarray(scan_in_inversion)
+            scan_inversions[chain[-1]] = logic.mvarray(scan_out_inversion)
         return interface, pi_map, po_map, scan_maps, scan_inversions
 
     def tests(self, circuit):
